@@ -17,6 +17,7 @@ mod lists;
 mod opts;
 mod runs;
 mod dump2;
+mod access;
 
 fn run_case(fields: &[&str]) -> String {
     match fields[0] {
@@ -42,6 +43,7 @@ fn run_case(fields: &[&str]) -> String {
         "DUMP" => runs::dump_case(fields),
         "DUMP2" => dump2::dump2_case(fields),
         "DEPTH" => runs::depth_case(fields),
+        "ACCESS" => access::access_case(fields),
         s => format!("UNKNOWN-SUITE {}", s),
     }
 }
